@@ -181,9 +181,29 @@ def r_block_axis(ctx: RuleCtx, col: Collector):
     reshape) silently interleaves the vectors of a column-wise block."""
     m = ctx.model
     dd = m.public_class("DomainDefinition")
-    f = m.resolve_method(dd, "write_to_vti")
-    if f is None:
+    w = m.resolve_method(dd, "write_to_vti")
+    if w is None:
         raise AnalysisError("DomainDefinition.write_to_vti not found")
+    # the writer itself, or the helper of the class that splits block-vectors for it (wherever the axis search lives)
+    cands = [w] + [g for name, defs in sorted(dd.methods.items()) for g in defs if g is not w and name.startswith("_") and
+                   any(isinstance(x, ast.Attribute) and x.attr == name for x in ast.walk(w.node))]
+    total = 0
+    found_axis = False
+    for f in cands:
+        r_ = _block_axis_in(ctx, col, f)
+        if r_ is not None:
+            found_axis = True
+            total += r_
+    if not found_axis:
+        raise AnalysisError("write_to_vti: search for the vector axis of a block-vector not recognised")
+    if total == 0:
+        raise AnalysisError("write_to_vti: selection of the sub-vectors not recognised")
+    dedupe(col)
+
+
+def _block_axis_in(ctx: RuleCtx, col: Collector, f: FuncInfo) -> Optional[int]:
+    """number of sub-vector selections judged in f, or None when f does not search for the vector axis"""
+    m = ctx.model
     # the searched axis: assigned from a scan over <array>.shape with a divisibility test
     axis_vars: Set[str] = set()
     arrays: Set[str] = set()
@@ -196,7 +216,7 @@ def r_block_axis(ctx: RuleCtx, col: Collector):
                     if isinstance(x, ast.Attribute) and x.attr == "shape" and isinstance(x.value, ast.Name):
                         arrays.add(x.value.id)
     if not axis_vars or not arrays:
-        raise AnalysisError("write_to_vti: search for the vector axis of a block-vector not recognised")
+        return None
 
     import copy as _copy
 
@@ -258,8 +278,8 @@ def r_block_axis(ctx: RuleCtx, col: Collector):
         guarded = False
         p_ = parent(n)
         while p_ is not None and p_ is not f.node:
-            if isinstance(p_, (ast.IfExp, ast.If)) and (_names(p_.test) & (dep_axis | axis_vars)):
-                guarded = True
+            if isinstance(p_, (ast.IfExp, ast.If)) and (_names(p_.test) & axis_vars):
+                guarded = True          # a branch on the searched axis itself (vec[:, i] if vecax == 0 else vec[i, :])
             p_ = parent(p_)
         construct = f"write_to_vti: sub-vector selection '{norm(n)}'"
         if guarded or (_names(n.slice) & (dep_axis | axis_vars)):
@@ -269,9 +289,7 @@ def r_block_axis(ctx: RuleCtx, col: Collector):
                     f"the sub-vector is selected with '{norm(n.slice)}' along a fixed axis although the axis that holds the "
                     f"per-entity data is searched at run time ({sorted(axis_vars)}): for a block-vector in the other orientation "
                     f"the vectors are interleaved in the file")
-    if n_sel == 0:
-        raise AnalysisError("write_to_vti: selection of the sub-vectors not recognised")
-    dedupe(col)
+    return n_sel
 
 
 # ---------------------------------------------------------------------------------------------------- C09
@@ -414,8 +432,10 @@ def r_stale_perm(ctx: RuleCtx, col: Collector):
             pairs = list(zip(n.targets[0].elts, n.value.elts)) if isinstance(n.targets[0], ast.Tuple) and isinstance(n.value, ast.Tuple) \
                 and len(n.targets[0].elts) == len(n.value.elts) else [(n.targets[0], n.value)]
             for t, v in pairs:
-                if norm(t) == qname and isinstance(v, ast.Subscript) and norm(v.value) == qname:
-                    perm = n
+                if norm(t) == qname and isinstance(v, ast.Subscript) and isinstance(v.value, ast.Name) and \
+                        isinstance(v.slice, ast.Tuple) and len(v.slice.elts) == 2 and isinstance(v.slice.elts[0], ast.Slice):
+                    perm = n          # Q = <vectors>[:, order]
+                    src_q = v.value.id
     if perm is None:
         raise AnalysisError("EigenSolve._response: permutation of the eigenvectors not found")
     # top-level statement order
@@ -430,8 +450,8 @@ def r_stale_perm(ctx: RuleCtx, col: Collector):
     stale: Dict[str, ast.AST] = {}
     for st in body[:ip]:
         for n in ast.walk(st):
-            if isinstance(n, ast.Assign) and isinstance(n.targets[0], ast.Name) and n.targets[0].id not in (wname, qname) and \
-                    (_names(n.value) & {wname, qname}):
+            if isinstance(n, ast.Assign) and isinstance(n.targets[0], ast.Name) and n.targets[0].id not in (wname, qname, src_q) and \
+                    (_names(n.value) & {wname, qname, src_q}) and not (isinstance(n.value, ast.Subscript) and isinstance(n.value.slice, ast.Constant)):
                 stale[n.targets[0].id] = n
     # the permutation index itself and anything re-permuted afterwards is fine
     idx_names = _names(perm.value) - {wname, qname}
@@ -555,7 +575,7 @@ def r_poly(ctx: RuleCtx, col: Collector):
 
 
 # ---------------------------------------------------------------------------------------------------- C14
-@rule("R-SWEEP-TOTAL", floor=2)
+@rule("R-SWEEP-TOTAL", floor=1)    # at least one layer sweep written as a while loop
 def r_sweep_total(ctx: RuleCtx, col: Collector):
     """Layer sweeps of modules visit every layer: the continuation test of a `while` sweep and the guard of every
     `break` inside a sweep of a module's _response/_sensitivity depend only on counters and configuration, never on the
@@ -930,6 +950,21 @@ def r_overlap_sym(ctx: RuleCtx, col: Collector):
                 tg, src = [n.target], n.iter
             elif isinstance(n, ast.Assign):
                 tg, src = n.targets, n.value
+            elif isinstance(n, ast.Call) and isinstance(n.func, ast.Attribute) and n.func.attr in ("append", "add") and \
+                    isinstance(n.func.value, ast.Name) and len(n.args) == 1:
+                # a list / set filled element by element: it holds what is appended
+                cname = n.func.value.id
+                o_ = org(n.args[0], origin)
+                if not o_ <= origin.get(cname, set()):
+                    origin[cname] = origin.get(cname, set()) | o_
+                    changed = True
+                others = [x for x in ast.walk(f.node) if isinstance(x, ast.Call) and isinstance(x.func, ast.Attribute) and
+                          x.func.attr in ("append", "add", "extend", "update", "insert") and isinstance(x.func.value, ast.Name)
+                          and x.func.value.id == cname]
+                if cname not in resolved and all(len(x.args) == 1 and is_res(x.args[0], resolved) for x in others):
+                    resolved.add(cname)
+                    changed = True
+                continue
             if src is None:
                 continue
             o = org(src, origin)
